@@ -586,6 +586,9 @@ class Spectrum(object):
             the psd on the fly, change the attribute :attr:`sides`.
 
         """
+        # apply any pending change (data, NFFT, sampling...) first: the
+        # recomputation resets :attr:`sides` to the native format
+        self.psd
         if sides == self.sides:
             #nothing to be done is sides = :attr:`sides
             return self.__psd
